@@ -112,6 +112,10 @@ type Config struct {
 	Trace        bool          // record a human readable log
 	Sites        bool          // record call sites of operations (slower)
 	Fingerprints []string      // expected fingerprints for the prefix (optional)
+	// StrictDeviations: every option other than option 0 costs one deviation, also the "free" choice of which
+	// thread continues when the running one blocks. Used for scenarios with many background goroutines, where
+	// the number of free context switches alone makes preemption bounding explode.
+	StrictDeviations bool
 }
 
 type sched struct {
@@ -312,6 +316,9 @@ func (s *sched) options() []option {
 		default:
 			// free switch, but choosing a later ready case of the same select as an earlier option costs
 			if !o.env && i > 0 && opts[i-1].t == o.t {
+				o.cost = 1
+			}
+			if s.cfg.StrictDeviations {
 				o.cost = 1
 			}
 		}
